@@ -75,6 +75,8 @@ pub trait Source {
             Dom::D2 => self.d2(),
             Dom::Base => self.dbase(),
             Dom::Full => Float::from_bits(self.bits64() as _),
+            // concrete: lets a data-dependent branch in the code under test be taken concretely
+            Dom::Neg1 => -1.0,
         }
     }
     fn vals(&mut self, n: usize, d: Dom) -> Vec<Float> {
@@ -94,6 +96,8 @@ pub enum Dom {
     D2,
     Base,
     Full,
+    /// the constant -1 (no solver variable): an all-inactive relu input
+    Neg1,
 }
 
 // ---------------------------------------------------------------------------------
